@@ -247,7 +247,16 @@ func genPayload(r *Rng, c *GenCfg, kind string) PayloadSpec {
 			n = 1
 		}
 		for i := 0; i < n; i++ {
-			p.Proposals = append(p.Proposals, genProposal(r, c, uint8(i+1)))
+			pr := genProposal(r, c, uint8(i+1))
+			if i > 0 && r.Chance(1, 4) {
+				// proposals built incrementally from one container: same ENCR transforms plus more
+				prev := p.Proposals[i-1].Encr
+				if len(prev) > 0 {
+					pr.Encr = append(append([]TransformSpec{}, prev...), genTransforms(r, c, 1, r.Range(1, 2))...)
+					pr.ShareEncr = true
+				}
+			}
+			p.Proposals = append(p.Proposals, pr)
 		}
 	case "KE":
 		p.B = Pick[uint16](r, 2, 14, r.U16())
